@@ -821,9 +821,24 @@ class TaskScenario(ScenarioData):
         # Clamp to slot duration (shouldn't exceed, but safety check)
         seconds_into_slot = min(seconds_into_slot, slot_duration_seconds)
 
+        # Part of the slot that other tasks had already taken when this task booked the rest of it
+        res_scenario = resource.data[self.scenarioIdx] if resource is not None and resource.data else None
+        booked_seconds = float(slot_duration_seconds)
+        entry_idx = None
+        if res_scenario is not None:
+            for i, (task, secs) in enumerate(res_scenario.slotTaskUsage.get(self.currentSlotIdx, [])):
+                if task == self.property:
+                    booked_seconds = secs
+                    entry_idx = i
+                    break
+        used_before = 0.0
+        if res_scenario is not None and entry_idx is not None:
+            used_before = res_scenario.slotSecondsUsed.get(self.currentSlotIdx, booked_seconds) - booked_seconds
+        seconds_into_slot = min(seconds_into_slot, booked_seconds)
+
         # Calculate the precise end time, rounded to nearest second
         # (Gold standard uses second-level precision)
-        seconds_rounded = round(seconds_into_slot)
+        seconds_rounded = round(used_before + seconds_into_slot)
 
         if forward:
             # For forward scheduling, end time is offset from slot start
@@ -833,35 +848,21 @@ class TaskScenario(ScenarioData):
                 precise_end = self.project["start"] + timedelta(seconds=seconds_rounded)
         else:
             # For backward scheduling, we're calculating the START time
-            # The start is at the END of the slot minus unused time
-            # If we used the whole slot, start is at slot_start
-            # If we used part of it, start is later in the slot
+            # The start is at the END of the slot minus what later tasks and this one use
             if slot_start is not None:
                 slot_end = slot_start + timedelta(seconds=slot_duration_seconds)
                 precise_end = slot_end - timedelta(seconds=seconds_rounded)
             else:
                 precise_end = self.project["start"]
 
-        # Release unused portion of the slot back to the resource
-        seconds_unused = slot_duration_seconds - seconds_into_slot
-        if seconds_unused > 0 and resource:
-            res_scenario = resource.data[self.scenarioIdx] if resource.data else None
-            if res_scenario:
-                # Update the per-task usage record to reflect actual usage
-                if self.currentSlotIdx in res_scenario.slotTaskUsage:
-                    # Find and update this task's entry
-                    for i, (task, _secs) in enumerate(res_scenario.slotTaskUsage[self.currentSlotIdx]):
-                        if task == self.property:
-                            res_scenario.slotTaskUsage[self.currentSlotIdx][i] = (task, seconds_into_slot)
-                            break
-
-                # Update total slotSecondsUsed to release unused time
-                # Old value was full slot duration, new value is actual usage
-                old_total = res_scenario.slotSecondsUsed.get(self.currentSlotIdx, slot_duration_seconds)
-                # Subtract what was previously booked (full slot) and add actual usage
-                res_scenario.slotSecondsUsed[self.currentSlotIdx] = (
-                    old_total - slot_duration_seconds + seconds_into_slot
-                )
+        # Release the unused portion of what this task booked back to the resource
+        seconds_unused = booked_seconds - seconds_into_slot
+        if seconds_unused > 0 and res_scenario is not None and entry_idx is not None:
+            # Update the per-task usage record to reflect actual usage
+            res_scenario.slotTaskUsage[self.currentSlotIdx][entry_idx] = (self.property, seconds_into_slot)
+            # Subtract what this task had booked and add its actual usage
+            old_total = res_scenario.slotSecondsUsed.get(self.currentSlotIdx, booked_seconds)
+            res_scenario.slotSecondsUsed[self.currentSlotIdx] = old_total - booked_seconds + seconds_into_slot
 
         return precise_end, seconds_into_slot
 
